@@ -727,3 +727,30 @@ func AddDataBits(r *rand.Rand, p *seccomp.Policy) int {
 	}
 	return n
 }
+
+// ShareBackingArray lays the name lists of all groups out in one array: every group's Names becomes a sub-slice of it
+// (so does every group's NamesWithCondtions of one array of entries), with the following groups' elements in its spare
+// capacity - as a caller gets who carves the groups out of one list (list[:k], list[k:]). The policy value is the same.
+func ShareBackingArray(p *seccomp.Policy) {
+	var all []string
+	var ents []seccomp.NameWithConditions
+	for _, g := range p.Syscalls {
+		all = append(all, g.Names...)
+		ents = append(ents, g.NamesWithCondtions...)
+	}
+	all = append(all, "spare-0", "spare-1", "spare-2")[:len(all)] // a little spare room behind the last group too
+	off, eoff := 0, 0
+	for gi := range p.Syscalls {
+		g := &p.Syscalls[gi]
+		if g.Names != nil {
+			n := len(g.Names)
+			g.Names = all[off : off+n]
+			off += n
+		}
+		if g.NamesWithCondtions != nil {
+			n := len(g.NamesWithCondtions)
+			g.NamesWithCondtions = ents[eoff : eoff+n]
+			eoff += n
+		}
+	}
+}
